@@ -933,6 +933,34 @@ package mcp
 //@   ensures[C08 response-body-closed-on-every-path] handles == old(handles) + 1 && lastresp != nil && isnil(lasthandleerr) ==> bodyclosed(lastresp.Body)
 //@ func sseClientTransport.sendResponseMessage
 //@   ensures[C08 response-body-closed-on-every-path] handles == old(handles) + 1 && lastresp != nil && isnil(lasthandleerr) ==> bodyclosed(lastresp.Body)
+//@ func streamableHTTPClientTransport.send
+//@   before call Handle#1 assert[C08 exchange-is-bound-to-the-callers-context] reqctx(httpReq) == old(ctx)
+//@ func streamableHTTPClientTransport.sendNotification
+//@   before call Handle#1 assert[C08 exchange-is-bound-to-the-callers-context] reqctx(httpReq) == old(ctx)
+//@ func streamableHTTPClientTransport.connectGetSSE
+//@   before call Handle#1 assert[C08 exchange-is-bound-to-the-callers-context] reqctx(req) == old(ctx)
+//@ func streamableHTTPClientTransport.sendResponseToServer
+//@   before call Handle#1 assert[C08 exchange-is-bound-to-its-own-30s-deadline-context] reqctx(httpReq) == ctx
+//@ func streamableHTTPClientTransport.terminateSession
+//@   before call Handle#1 assert[C08 exchange-is-bound-to-the-callers-context] reqctx(httpReq) == old(ctx)
+//@ func sseClientTransport.sendRequestInternal
+//@   before call Handle#1 assert[C08 exchange-is-bound-to-the-callers-context] reqctx(httpReq) == old(ctx)
+//@ func sseClientTransport.sendNotification
+//@   before call Handle#1 assert[C08 exchange-is-bound-to-the-callers-context] reqctx(httpReq) == old(ctx)
+//@ func sseClientTransport.sendResponseMessage
+//@   before call Handle#1 assert[C08 exchange-is-bound-to-its-own-30s-deadline-context] reqctx(httpReq) == ctx
+//@ func sseClientTransport.start
+//@   before call Handle#1 assert[C08 stream-is-bound-to-the-context-close-cancels] reqctx(req) == sseCtx
+//@
+//@ sweepscope[C08] kinds=cancel files=streamable_client.go,sse_client.go,transport_stdio.go,client.go,stdio_client.go
+
+//@ type sseClientTransport
+//@   guarded[C08] responses by responsesMu
+//@   transient[C08] responses
+//@ type stdioClientTransport
+//@   guarded[C08] pendingRequests by pendingMutex
+//@   transient[C08] pendingRequests
+//@
 //@ func streamableHTTPClientTransport.handleSSEResponse
 //@   ensures[C08 takes-ownership-of-the-response-and-closes-its-body] bodyclosed(httpResp.Body)
 //@   ensures[C08 no-error-means-a-result] ret1 == nil ==> ret != nil
